@@ -16,5 +16,16 @@ CLAIMED = {
            "by that sweep on the real code, not by a theorem yet - labelled partial."),
   "note": DIFF_NOTE,
  },
+ "C15": {
+  "technique": "Lean 4 proof (string-table round trips by decide over regenerated tables, JSON round trip, Matches/FilterIgnores laws, exit-status theorems) + correspondence with DiffCommand.Execute",
+  "text": ("Proof: 22 theorems over the report model and the REGENERATED code/compatibility string tables - every code and compatibility name "
+           "round-trips through the inverse table built in init (complete finite quantifier, decide), a whole difference survives JSON encode/decode "
+           "(omitempty rules), Matches is equality, FilterIgnores removes exactly the listed entries (ignore_all, ignore_mem, ignore_sub), text and "
+           "breaking-only modes exit non-zero iff a non-ignored Breaking entry exists, each report section is a permutation of its class; "
+           "`exit_json_fails` proves the exit-status half false for -f json (known finding, pinned by an existing test). Tie: tables regenerated from "
+           "live maps each run; the real command is run in a worker on generated pairs with the JSON report fed back verbatim and as random subsets, "
+           "outputs compared with the compiled model line by line."),
+  "note": DIFF_NOTE,
+ },
 }
 NOT_YET = {}
